@@ -348,10 +348,11 @@ Definition c04_step (c : config) (w : wctx) (e : ev) (o : ostep) : bool :=
                 let p := (Z.of_N (k_note key) + 12 * oc + st)%Z in
                 let chn := (ch + k_off key) mod 16 in
                 if ((0 <=? p) && (p <=? 127))%Z then
-                  forallb (fun m => negb (is_note_on_msg m) || nlist_eqb m (note_on chn (Z.to_N p) (u8 (d_velocity c)))) (o_midi o) &&
-                  match cmode_of c with
-                  | COff | CRetrigger => msgs_eqb (o_midi o) [note_on chn (Z.to_N p) (u8 (d_velocity c))]
-                  | _ => true end
+                  (* C04_press_formula: exactly the collision rule applied to (p, ch, velocity); the number of holders is
+                     counted from the monitor's own history-based tracker (a managed mode may legitimately stay silent or
+                     send Note Off first, but only when the pitch is already held) *)
+                  let pr := (Z.to_N p, chn) in
+                  msgs_eqb (o_midi o) (press_msgs (cmode_of c) (u8 (d_velocity c)) pr (Z.of_nat (mult pr (vals (w_trk w)))))
                 else is_nilb (o_midi o)
             end
           else true
